@@ -108,14 +108,16 @@ static bool gen_c18(uint64_t seed, const std::string &tier, uint64_t i, Plan &p)
   int nj = (int)r.range(1, 6);
   for (int q = 0; q < nj; q++) {
     std::string b; int kind = (int)r.below(6);
-    int dn = r.chance(0.5) ? (int)r.range(bound, 255) : (int)r.range(bound - 2, bound - 1);
+    // delivery numbers: out of range; in range but never allocated; or low numbers that are free now and then and in use at other
+    // times (the ghost decides at the moment the daemon reads the record whether it names a delivery in flight)
+    int dn = r.chance(0.4) ? (int)r.range(bound, 255) : r.chance(0.5) ? (int)r.range(bound - 2, bound - 1) : (int)r.range(0, 3);
     b.push_back((char)dn);
     if (kind == 0) b += "X mangled"; else if (kind == 1) b += std::string("Z") + std::string((size_t)r.range(9990, 30000), 'z'); else if (kind == 2) b += ""; else if (kind == 3) b += std::string("K") + "forged"; else b += r.pick(std::vector<std::string>{"Kok", "Dno", "Zlater", "k", "\xff\xfe"});
     b.push_back('\0');
     p.ops.push(Json::obj().set("op", "junk").set("chan", (int)r.below(2)).set("after", (long long)r.below(4)).set("bytes", b));
   }
   p.ops.push(Json::obj().set("op", "settle").set("max_s", 400000));
-  p.knobs.set("max_sim_s", 2000000);
+  p.knobs.set("max_sim_s", 2000000).set("expect_drain", true);   // junk must not wedge the report channel: every scripted delivery still ends
   p.label = "qmail-send junk reports=" + std::to_string(nj);
   return true;
 }
